@@ -116,6 +116,13 @@ struct Ctx {
         else if constexpr (VT == 1) return pr();
         else if constexpr (VT == 2) return pr(val::MoveOnly(value_of(i)));
         else if constexpr (VT == 3) return pr(slots[i]);
+        else if (i & 1) {
+            // resolved from a variable of the caller (an lvalue): the future takes a copy, the variable stays intact
+            val::Counted x(value_of(i));
+            bool r = pr(x);
+            if (x.val() != value_of(i)) hz::fail("promise(lvalue) changed the caller's variable: it reads %d after supplying %d (moved from instead of copied)", x.val(), value_of(i));
+            return r;
+        }
         else return pr(val::Counted(value_of(i)));
     }
     bool call_bound(int i) {
